@@ -128,6 +128,7 @@ func main() {
 	must(os.MkdirAll(outDir, 0o755))
 	genProcessEnv()
 	genUtilFormat()
+	genUrlTables()
 }
 
 // exprString / stmtsString: canonical whitespace-free rendering of AST fragments used for shape matching.
